@@ -265,10 +265,15 @@ func (s *Store) compact(footer *Footer, partialCompactStart int,
 
 		newSS, newBase = s.mergeSegStacks(footer, partialCompactStart, ssHigher)
 	} else {
-		newSS = footer.ss      // Safe as footer ref count is held positive.
-		if len(newSS.a) <= 1 { // No incoming data & 1 or fewer footer segments.
+		if len(footer.ss.a) <= 1 { // No incoming data & 1 or fewer footer segments.
 			return ErrNothingToCompact // no need to perform compaction.
 		}
+
+		// No incoming data: compact what the footer holds, which includes
+		// its child collections (footer.ss alone has the top-level
+		// segments only, so the child collections would be dropped).
+		newSS, newBase = s.mergeSegStacks(footer, partialCompactStart,
+			emptyStackLike(footer, &s.options.CollectionOptions))
 	}
 
 	var frefCompact *FileRef
@@ -350,6 +355,19 @@ func (s *Store) compact(footer *Footer, partialCompactStart int,
 	}
 
 	return nil
+}
+
+// emptyStackLike returns a segmentStack without any segments that has
+// a child stack for every child collection of the footer, recursively.
+func emptyStackLike(footer *Footer, options *CollectionOptions) *segmentStack {
+	rv := &segmentStack{options: options, incarNum: footer.incarNum}
+	for cName, childFooter := range footer.ChildFooters {
+		if rv.childSegStacks == nil {
+			rv.childSegStacks = make(map[string]*segmentStack)
+		}
+		rv.childSegStacks[cName] = emptyStackLike(childFooter, options)
+	}
+	return rv
 }
 
 func (s *Store) mergeSegStacks(footer *Footer, splicePoint int,
